@@ -159,7 +159,7 @@ def jobs(tier):
     return J
 
 
-LEVEL = 'bounded'
+LEVEL = 'other'      # bounded stand-ins only: never reported as proof
 TRUSTED = ['tools/cxx2c.py lowering']
 ASSUMPTIONS = [
     'stacks are handles naming their contents, copying is the identity, moving a unique_ptr out of an lvalue nulls it (props/c01/alt_model.h); std::vector, std::all_of, scon::get/reset are modelled; the lambda given to std::all_of is lowered and called by the model',
